@@ -106,7 +106,32 @@ def oracle_map(text, res):
         return "a message is not a warning"
     if len(custom) != good:
         return "a readable line did not take effect"
+    # ... and the style map can be USED: converting a document whose styles have names full of characters that mean something in other
+    # notations (regular expressions, globs, format strings) returns, whatever the readable lines say
+    try:
+        import io as _io
+        import mammoth as _mammoth
+        _mammoth.convert_to_html(_io.BytesIO(probe_docx()), style_map=text)
+    except Exception as e:
+        return "converting a document with this style map raised %s: %s" % (type(e).__name__, str(e)[:80])
     return None
+
+
+_PROBE = []
+
+
+def probe_docx():
+    if not _PROBE:
+        from mammoth.docx.xmlparser import element as X, text as XT
+        from .. import docx_builder as B, gen_xml
+        names = ["Note (1)", "C++ listing", "N" * 26 + "!", "Heading 1", "a.b*c [x] {0} %s \\d+ ^$ |", "(unclosed", "*", "+"]
+        pkg = gen_xml.Package()
+        pkg.styles = [X("w:style", {"w:type": "paragraph", "w:styleId": "P%d" % k}, [X("w:name", {"w:val": nm})]) for k, nm in enumerate(names)] + \
+                     [X("w:style", {"w:type": "character", "w:styleId": "R%d" % k}, [X("w:name", {"w:val": nm})]) for k, nm in enumerate(names)]
+        pkg.body = [X("w:p", {}, [X("w:pPr", {}, [X("w:pStyle", {"w:val": "P%d" % k})]),
+                                  X("w:r", {}, [X("w:rPr", {}, [X("w:rStyle", {"w:val": "R%d" % k})]), X("w:t", {}, [XT("t%d" % k)])])]) for k in range(len(names))]
+        _PROBE.append(B.build(pkg)[0])
+    return _PROBE[0]
 
 
 def timing_ladder(ctx):
@@ -183,7 +208,11 @@ def run(ctx):
              # unreadable lines whose characters any Unicode normalisation or case folding would change: each is quoted as written, and
              # canonically equivalent lines are DIFFERENT lines (two warnings)
              "e\u0301 is not a mapping\n\u00e9 is not a mapping\np => h1", "\u212b => \u00c5\n\u00c5 => \u212b\n\u1100\u1161 ?\n\uac00 ?",
-             "p.\ufb01 =>\n\u0130 => i\nI\u0307 => i"]
+             "p.\ufb01 =>\n\u0130 => i\nI\u0307 => i",
+             # style names are compared as strings: nothing in them is a pattern
+             "p[style-name^='Note ('] => aside\np[style-name='C++ listing'] => pre\nr[style-name='a.b*c [x] {0} %s \\\\d+ ^$ |'] => code",
+             "p[style-name='(N+)+$'] => p\np[style-name^='(N+)+'] => p", "p[style-name='[unclosed'] => p\nr[style-name^='*'] => em\nr[style-name='+'] => b",
+             "p[style-name='(unclosed'] => h2\np[style-name^='N{26}'] => h3"]
     for i in range(1500 if ctx.thorough else 250):
         ls = []
         for _ in range(rng.randint(0, 6)):
